@@ -285,7 +285,7 @@ def main():
     cf = configs(run.tier, run.seed)
     run.bounds = {'forces_per_kind': '0..3', 'series_orders': sorted({(c['m'], c['n']) for c in cf}), 'assemblies': '2..4 panels', 'solve sizes': '4..6 with null patterns'}
     run.assume('a, b > 0', 'spsolve contract: returned x satisfies a x = b', 'linearity in the loads is a corollary of K c = f for a non-singular reduced matrix')
-    run.outside = ['StiffPanelBay.calc_fext (claimed with C13)', 'orders above the bound']
+    run.outside = ['StiffPanelBay.calc_fext is decided by C13 (bay-fext)', 'orders above the bound']
     res = pmap(kprop.job, [(__name__, c) for c in cf])
     res = kprop.explore_loci(__name__, res, run)      # second pass: the equality loci the executed code branched on
     kprop.handle(run, res, build, 'load vector entries differ from the virtual work of the loads')
